@@ -156,7 +156,3 @@ func cmdVerify(args []string) {
 	fmt.Printf("%d/%d discharged, %.1fs\n", nOK, len(res), time.Since(t0).Seconds())
 }
 
-func cmdCheck(args []string) {
-	fmt.Fprintln(os.Stderr, "not implemented yet")
-	os.Exit(2)
-}
